@@ -46,7 +46,8 @@ CHECKS["C17"] = dict(
           "partition data computed as get_face_node_partitions does (np.unique sizes, cumulative counts) meet PartsOK for EVERY "
           "permutation that sorts the face sizes, i.e. for any argsort tie-breaking, so the end-to-end statement has no run-time "
           "hypothesis left except that argsort sorts (SortsBy, evaluated BY LEAN on the real argsort output of every generated case, "
-          "together with PartsOK on the real partitions). The model loop is run by the driver with exact integer reductions and must "
+          "together with PartsOK on the real partitions). agg_face_real_corners composes C02 and C17: on every standard-form table the "
+          "aggregation of face f is the reduction over exactly the real corners of row f, for any sorting permutation of the derived counts. The model loop is run by the driver with exact integer reductions and must "
           "equal the implementation; all ten reductions are compared with NumPy's reduction over the element's own nodes."),
     note=_TB + "Modelled, not verified: NumPy fancy indexing and the reductions themselves (parameters), np.argsort/np.unique/"
          "np.cumsum inside get_face_node_partitions (validated per case by the Lean predicate PartsOK).",
